@@ -33,8 +33,7 @@ RULE = (
 TRUSTED_BASE = C03.TRUSTED_BASE
 ASSUMPTIONS = [
     "the TSIG MAC is abstract and of the algorithm's fixed size (the model renders zero octets in its place; the comparison masks the MAC field)",
-    "OPT + TSIG reserves fit under the limit (otherwise Renderer.reserve raises ValueError before anything is rendered; see KNOWN_FINDINGS / report)",
-    "with prefer_truncation a TooBig caused by the EDNS padding not fitting is allowed by the statement; a result over the limit never is",
+    "with prefer_truncation a TooBig is allowed by the statement only when the header plus the OPT and TSIG records alone do not fit, or when the EDNS padding does not fit; a result over the limit never is; any other exception (ValueError from reserve()) is a violation",
     "want_shuffle=False; GSS-TSIG (variable MAC) is outside the model",
 ]
 
@@ -97,6 +96,18 @@ def rle(pairs):
     if cur is not None:
         out.append(f"{lo}-{hi}={cur}")
     return out
+
+
+def fixed_tail_size(c):
+    """octets of the OPT record (without padding) plus the uncompressed TSIG record, computed from the case alone"""
+    n = 0
+    if c["opt"] is not None:
+        n += 11 + sum(4 + len(bytes.fromhex(b)) for _, b in c["opt"]["options"]) + (4 if c["pad"] else 0)
+    if c["tsig"] is not None:
+        t = c["tsig"]
+        wl = lambda labels: sum(len(l) + 1 for l in L(labels))
+        n += wl(t["name"]) + 10 + wl(t["alg"]) + 16 + MAC_SIZES[bytes(L(t["alg"])[0]).lower()] + len(bytes.fromhex(t["other"]))
+    return n
 
 
 def items_of(c):
@@ -204,7 +215,7 @@ def eval_sweep(ctx: Ctx, c: dict):
                 ctx.count("sweep.TooBig" if "TooBig" in line else "sweep.ValueError")
                 if line == "err ValueError":
                     fail(ctx, "C08/to_wire/raises/ValueError/reserve-exceeds-limit", f"to_wire(max_size={lim}) raised ValueError", dict(c, max_size=lim, prefer_truncation=pt))
-                elif pt and c["pad"] == 0:
+                elif pt and c["pad"] == 0 and 12 + fixed_tail_size(c) <= eff_limit(lim, c.get("request_payload", 0)):
                     fail(ctx, "C08/to_wire/truncate/TooBig-without-padding", f"prefer_truncation at limit {lim} raised TooBig although no padding was requested", dict(c, max_size=lim, prefer_truncation=True))
                 prev = None
                 continue
@@ -383,14 +394,14 @@ def run_one(ctx, c):
 
 def generate(ctx: Ctx, scale: int, rng):
     n = lambda q: max(1, q * scale)
-    for i in range(n(20)):
+    for i in range(n(11)):
         c = gen_sized(rng, rng.choice([520, 600, 700, 800, 900, 1000, 1200, 1500]))
         if c is None:
             ctx.count("gen.rejected")
             continue
         c["kind"] = "sweep"
         run_one(ctx, c)
-    for i in range(n(20)):
+    for i in range(n(12)):
         c = gen_sized(rng, rng.choice([60, 150, 300, 520, 700]), want_opt=True, want_tsig=rng.chance(2, 3))
         if c is None:
             ctx.count("gen.rejected")
@@ -402,7 +413,7 @@ def generate(ctx: Ctx, scale: int, rng):
         c["max_size"] = rng.choice([65535, 65535, 512, len(w) + rng.choice([0, 1, 5, 40, 130])])
         c["prefer_truncation"] = rng.chance(1, 2)
         run_one(ctx, c)
-    for i in range(n(80)):
+    for i in range(n(50)):
         c = gen_sized(rng, rng.choice([200, 400, 700]), want_opt=False, want_tsig=False)
         if c is None:
             continue
@@ -420,7 +431,7 @@ def run(ctx: Ctx):
         ctx.case(("corpus", p), sample=None)
         eval_case(ctx, c)
         ctx.count("corpus")
-    generate(ctx, 1 if ctx.tier == "quick" else 20, ctx.rng)
+    generate(ctx, 1 if ctx.tier == "quick" else 30, ctx.rng)
 
 
 def search(ctx: Ctx):
@@ -449,9 +460,9 @@ LEVEL = {
             "(so no pointer into removed bytes), in every reachable state; truncation_prefix — with prefer_truncation the result is byte for "
             "byte the untruncated rendering of the message cut to its first k record sets (whole sets, section order, same OPT/TSIG) with TC "
             "added iff the first dropped set lies before ADDITIONAL; result_parses_partial — that result parses to that prefix (class of "
-            "C03.parse_render_partial); padding_multiple_partial — with padding the length is a multiple of the block for every message "
-            "without TSIG; padding_counterexample_D07 — the shipped code's failure with a compressible TSIG key name (121 mod 128), proved "
-            "in the model. Tied to the code by correspondence at every limit from 505 to len+2, every pad block in {1..64,128,468} and "
+            "C03.parse_render_partial); padding_multiple — with padding the length, TSIG included, is a multiple of the block for every "
+            "message, limit and mode (the TSIG is rendered against a fresh compression table, so its reserve is exact: repaired D07); "
+            "reserve_too_big — OPT+TSIG reserves beyond the limit give TooBig. Tied to the code by correspondence at every limit from 505 to len+2, every pad block in {1..64,128,468} and "
             "step-by-step Renderer traces.",
     "note": "Trusted: Lean kernel + propext/Classical.choice/Quot.sound; the statements in lean/Props/C08.lean; the correspondence "
             "harness and its generators; harness/extract_C03.py. The TSIG MAC is abstract and fixed-size. Padding with TSIG is tie-only "
